@@ -564,7 +564,8 @@ theorem receivedReset_step {s s' : State} {id code fo : Nat} {r : Except TErr Bo
           · rcases hh with ⟨sz, c, hst, he⟩ | ⟨sz, hst, he⟩
             · simp at he
             · simp only [Except.ok.injEq, Prod.mk.injEq, true_and] at he
-              refine ⟨by simp [Recv.isReceiving, hst], h3, h4, he, ?_⟩
+              have hrc : rs.isReceiving = true := by simp [Recv.isReceiving, hst]
+              refine ⟨hrc, h3 hrc, h4 hrc, he, ?_⟩
               unfold Recv.resetSizeErr at hse
               cases hfo' : rs.finalOffset with
               | none =>
